@@ -1494,3 +1494,10 @@ func madeFromArg(sv ssa.Value) ssa.Value {
 	}
 	return call.Call.Args[argIdx]
 }
+
+func constantToString(k *types.Const) (string, bool) {
+	if k.Val().Kind() != constant.String {
+		return "", false
+	}
+	return constant.StringVal(k.Val()), true
+}
